@@ -102,7 +102,7 @@ def run_harness(args, timeout=3600, cwd=ROOT, env=None, check=True):
 # TLC
 
 def tlc_cmd(main_tla, cfg, metadir, workers=1, extra=()):
-    return ['java', '-XX:+UseParallelGC', '-cp', TLA_CP, 'tlc2.TLC', '-workers', str(workers),
+    return ['java', '-XX:+UseParallelGC', '-cp', TLA_CP, 'tlc2.TLC', '-workers', str(workers), '-checkpoint', '0',
             '-metadir', metadir, '-cleanup', '-noGenerateSpecTE', '-config', cfg] + list(extra) + [main_tla]
 
 
